@@ -108,7 +108,7 @@ impl Property for C17 {
         let per_round = grid.len() + specials;
         let reps = cfg.tier.pick(2, 6) as usize;
         let uri = URIS[(i % URIS.len() as u64) as usize];
-        let mut art = ArtStore { embedded: None, cover: None, limit: 64, readpicture_supported: true, embedded_ack: 0, cover_ack: 0 };
+        let mut art = ArtStore { embedded: None, cover: None, limit: 64, readpicture_supported: true, embedded_ack: 0, cover_ack: 0, ack_after_partial_output: i % 2 == 1 };
         let k = (i as usize) % per_round;
         let mut class = String::new();
         if (i as usize) < per_round * reps {
